@@ -671,6 +671,9 @@ def h2e(v):
         v = base.getvector(v, out='col')
         return v[0:-1] / v[-1]
 
+    else:
+        raise ValueError('argument must be a vector or a 2D array of column vectors')
+
 def e2h(v):
     """
     Convert from Euclidean to homogeneous form
@@ -705,6 +708,9 @@ def e2h(v):
         # dealing with shape (N,) array
         v = base.getvector(v, out='col')
         return np.vstack((v, 1))
+
+    else:
+        raise ValueError('argument must be a vector or a 2D array of column vectors')
 
 def homtrans(T, p):
     r"""
